@@ -635,6 +635,8 @@ pub async fn broadcast_changes(
                     trace!("broadcasting changes: {changes:?} for seq: {seqs:?}");
 
                     debug!("match_changes db_version: {db_version}");
+                    #[cfg(feature = "verif-hooks")]
+                    crate::verif::point("bcast.before_match");
                     match_changes(agent.subs_manager(), &changes, db_version);
                     match_changes(agent.updates_manager(), &changes, db_version);
 
